@@ -111,38 +111,40 @@ Variable lenient : bool.
 Definition punct (c : N) (t : bytes) : bool := tok_is c t || (lenient && tok_is c_slash t).
 Definition punct_s (s : bytes) (t : bytes) : bool := bytes_eqb t s || (lenient && tok_is c_slash t).
 
+(* one segment; [inner] parses the segments of a variable *)
+Definition gw_segment (inner : list bytes -> option (list seg * list bytes)) (toks : list bytes) : option (seg * list bytes) :=
+  match toks with
+  | [] => None
+  | t :: r =>
+      if punct c_star t then Some (SWild, r)
+      else if punct_s s_deep t then Some (SDeep, r)
+      else if is_literal t then Some (SLit t, r)
+      else if punct c_lbrace t then
+        match gw_field_path r with
+        | None => None
+        | Some (path, r1) =>
+            match r1 with
+            | e :: r2 =>
+                if punct c_eq e then
+                  match inner r2 with
+                  | Some (segs, r3) =>
+                      match r3 with
+                      | c :: r4 => if punct c_rbrace c then Some (SVar path segs, r4) else None
+                      | [] => None end
+                  | None => None
+                  end
+                else if punct c_rbrace e then Some (SVar path [SWild], r2) else None
+            | [] => None
+            end
+        end
+      else None
+  end.
+
 Fixpoint gw_segments (fuel : nat) (toks : list bytes) : option (list seg * list bytes) :=
   match fuel with
   | O => None
   | S f =>
-      let segment (toks : list bytes) : option (seg * list bytes) :=
-        match toks with
-        | [] => None
-        | t :: r =>
-            if punct c_star t then Some (SWild, r)
-            else if punct_s s_deep t then Some (SDeep, r)
-            else if is_literal t then Some (SLit t, r)
-            else if punct c_lbrace t then
-              match gw_field_path r with
-              | None => None
-              | Some (path, r1) =>
-                  match r1 with
-                  | e :: r2 =>
-                      if punct c_eq e then
-                        match gw_segments f r2 with
-                        | Some (inner, r3) =>
-                            match r3 with
-                            | c :: r4 => if punct c_rbrace c then Some (SVar path inner, r4) else None
-                            | [] => None end
-                        | None => None
-                        end
-                      else if punct c_rbrace e then Some (SVar path [SWild], r2) else None
-                  | [] => None
-                  end
-              end
-            else None
-        end in
-      match segment toks with
+      match gw_segment (gw_segments f) toks with
       | None => None
       | Some (s, r) =>
           match r with
